@@ -265,7 +265,7 @@ func c12Fixture(c *ipa.IPAConfig, seed int64) c12fix {
 		z := frFromBig(bi(300))
 		pr, err := ipa.CreateIPAProof(common.NewTranscript("ipa"), c, cm, a, z)
 		if err != nil {
-			panic(err)
+			panic(core.ImplFault{API: "ipa.CreateIPAProof", Input: "honest opening at 300", Got: "error: " + err.Error()})
 		}
 		b := c.PrecomputedWeights.ComputeBarycentricCoefficients(z)
 		y, _ := ipa.InnerProd(a, b)
